@@ -153,9 +153,13 @@ def check(repo: Repo) -> Result:
             found.append(writes)
             n_c += 1
             ok_dim &= dimless
-            ok_both &= any(w.replace(" ", "") in (f"{ex}={ex}/{pv}[0]/{pv}[1]", f"{ex}={ex}/({pv}[0]*{pv}[1])", f"{ex}={ex}/{pv}[1]/{pv}[0]") for w in writes)
+            removal = (f"{ex}={ex}/{pv}[0]/{pv}[1]", f"{ex}={ex}/({pv}[0]*{pv}[1])", f"{ex}={ex}/{pv}[1]/{pv}[0]")
+            flat = [w.replace(" ", "") for w in writes]
+            ok_both &= any(any(w.startswith(r_) for r_ in removal) for w in flat)
             unit_scale = x.has(f"{P}.base_value == 1", True)
-            scaled = [w for w in writes if w in (f"{ex} *= {P}.base_value", f"{ex} *= int({P}.base_value)")]
+            scale_forms = [f"{P}.base_value".replace(" ", ""), f"int({P}.base_value)".replace(" ", "")]
+            # the scale is multiplied back either by a separate `expr *= scale` or within the same re-binding
+            scaled = [w for w in flat if any(w == f"{ex}*={sf}" or any(w == r_ + "*" + sf for r_ in removal) for sf in scale_forms)]
             ok_scale &= bool(scaled) != unit_scale and (unit_scale or len(scaled) == 1)
         elif notdim:
             n_u += 1
